@@ -219,6 +219,16 @@ func c13Check(l *explore.Local, _ struct{}, c c13Case) *explore.Fail {
 					if ly, mode := obs(m); ly != 0 || mode != 0 {
 						return fail(explore.Failf("LCD off: LY/mode not 0", "%d cycles after switching off: LY=%d mode=%d", i, ly, mode))
 					}
+					if i == k/2 && k > 0 {
+						// the guest writes video registers while the LCD is off (LY is read-only; STAT's low bits too): LY and
+						// the mode keep reading 0
+						for _, w := range [][2]uint16{{0xff44, 0x90}, {0xff41, 0xff}, {0xff45, 0x00}, {0xff44, 0x05}} {
+							m.Map.Write(w[0], uint8(w[1]))
+							if ly, mode := obs(m); ly != 0 || mode != 0 {
+								return fail(explore.Failf("LCD off: LY/mode not 0", "%d cycles after switching off, after %04x<-%02x: LY=%d mode=%d", i, w[0], w[1], ly, mode))
+							}
+						}
+					}
 					if i < k {
 						m.P.EndMachineCycle()
 					}
